@@ -121,9 +121,12 @@ func VfFullRTSearchValue() {
 	}
 	ans := map[peer.ID]*answer{}
 	var puts []vfSent
-	snd.reply = func(_ context.Context, p peer.ID, req *dht_pb.Message) (*dht_pb.Message, error) {
+	snd.reply = func(rctx context.Context, p peer.ID, req *dht_pb.Message) (*dht_pb.Message, error) {
 		switch req.Type {
 		case dht_pb.Message_GET_VALUE:
+			if rctx.Err() != nil {
+				return nil, rctx.Err() // an abandoned request is not answered
+			}
 			a := ans[p]
 			if a == nil {
 				a = &answer{}
@@ -157,12 +160,14 @@ func VfFullRTSearchValue() {
 		return nil, errors.New("unexpected request")
 	}
 	var opts []routing.Option
-	if vfBool("quorumOne") {
+	vfQuorumOne := vfBool("quorumOne")
+	if vfQuorumOne {
 		opts = append(opts, kaddht.Quorum(1))
 	} else {
 		opts = append(opts, kaddht.Quorum(0))
 	}
 	var streamed [][]byte
+	slowConsumer := vfBool("consumerIsSlow")
 	viaGet := vfBool("useGetValue")
 	if viaGet {
 		best, err := d.GetValue(ctx, key, opts...)
@@ -177,6 +182,9 @@ func VfFullRTSearchValue() {
 		vfAssert(err == nil && ch != nil, "fullrt/search-starts")
 		for v := range ch {
 			streamed = append(streamed, v)
+			if slowConsumer {
+				vfAdvance(time.Millisecond)
+			}
 		}
 	}
 	vfWaitIdle()
